@@ -552,6 +552,69 @@ fn batch_fault(rep: &mut Report, rng: &mut Rng, h: &mut History, g: &mut Gen, wo
     }
 }
 
+/// builders that carry several items: a dataset with keys and data of which one item cannot be resolved (first, in the middle or
+/// last), a resource whose file does not exist. Returns false when the store may have changed
+fn builder_fault(rep: &mut Report, rng: &mut Rng, h: &mut History, g: &mut Gen) -> bool {
+    let Some(before) = snapshot(&h.store) else { return false };
+    let which = rng.below(4);
+    let pos = rng.below(3);
+    let posname = ["first", "middle", "last"][pos];
+    let setid = if which == 3 { h.model.sets.values().next().map(|s| s.id.clone()).unwrap_or_else(|| g.fresh_id(rng, "s")) } else { g.fresh_id(rng, "s") };
+    let (k1, k2) = (g.fresh_id(rng, "k"), g.fresh_id(rng, "k"));
+    let d1 = g.fresh_id(rng, "d");
+    let resid = g.fresh_id(rng, "r");
+    let name: String = match which {
+        0 => "add_dataset/item-refers-to-unknown-data-id".into(),
+        1 => "add_dataset/item-with-unknown-key-handle".into(),
+        2 => "add_resource/file-does-not-exist".into(),
+        _ => "add_dataset/existing-id-and-unknown-data-id".into(),
+    };
+    rep.eval();
+    let outcome: Result<Result<(), String>, Panic> = if which == 2 {
+        guard(|| h.store.add_resource(TextResourceBuilder::new().with_id(resid.clone()).with_filename("/nonexistent-dir-c14/none.txt")).map(|_| ()).map_err(|e| e.to_string()))
+    } else {
+        let bad: AnnotationDataBuilder = if which == 1 {
+            AnnotationDataBuilder::new().with_key(BuildItem::Handle(DataKeyHandle::new(9999))).with_value(DataValue::Int(1))
+        } else {
+            AnnotationDataBuilder::new().with_id("no-such-data-item".into())
+        };
+        let mut items: Vec<AnnotationDataBuilder> = vec![
+            AnnotationDataBuilder::new().with_key(k1.clone().into()).with_value(DataValue::String("v".into())).with_id(d1.clone().into()),
+            AnnotationDataBuilder::new().with_key(k2.clone().into()).with_value(DataValue::Int(2)),
+        ];
+        items.insert(pos.min(items.len()), bad);
+        let mut b = AnnotationDataSetBuilder::new().with_id(setid.clone());
+        for i in items {
+            b = b.with_data(i);
+        }
+        guard(|| h.store.add_dataset(b).map(|_| ()).map_err(|e| e.to_string()))
+    };
+    match outcome {
+        Err(p) => {
+            rep.violation(format!("C14/{}/panic/{}", name, p.class()), json!({"position": posname, "panic": p.msg, "at": p.loc, "history": h.replay_json()}));
+            false
+        }
+        Ok(Ok(())) => {
+            rep.count(&format!("builder-fault-accepted/{}", name));
+            false
+        }
+        Ok(Err(e)) => {
+            let Some(after) = snapshot(&h.store) else {
+                rep.violation(format!("C14/{}/store-not-observable-after-refusal", name), json!({"history": h.replay_json()}));
+                return false;
+            };
+            rep.distinct(&format!("refused/{}/{}", name, posname));
+            rep.count(&format!("builder-refused/{}/{}", name, posname));
+            if let Some((first, detail)) = leftover(&before, &after) {
+                let leak = leak_class(&before, &after);
+                rep.violation(format!("C14/{}/leaves/{}", name, leak), json!({"position": posname, "dataset": setid, "error": e, "first_difference": first, "detail": detail, "history": h.replay_json()}));
+                return false;
+            }
+            true
+        }
+    }
+}
+
 /// STAM JSON for a request that refers to everything by id
 fn req_json(r: &AnnReq) -> Option<Value> {
     fn id(r: &Ref) -> Option<&str> {
@@ -597,7 +660,7 @@ fn req_json(r: &AnnReq) -> Option<Value> {
 }
 
 pub fn run(p: &Params, rep: &mut Report) {
-    rep.rule = "stores reached by seeded histories of the C01 generator; per store up to 10 single faults drawn from a catalogue of 22 (unknown resource / annotation / dataset / key / data, begin or end beyond the text, inverted offset, complex selector with an invalid last member, nested complex selector, missing target - each combined with data that is new to the store -, valid target with an unknown set / key / data handle after new data, duplicate annotation / resource / dataset / data id, insert_data into an unknown set) and one batch (annotate_from_iter, annotate_from_file, ADD query) with the invalid item first, in the middle or last; the shadow model decides that the request must be refused; snapshot before vs after (observation with handles and all lookups, segmentation/find_text/related_text answers, hooked dump of every store and index), then the corrected request against a twin store replayed without the failure. distinct_nontrivial = distinct (fault, refused) and (fault, corrected) pairs observed".into();
+    rep.rule = "stores reached by seeded histories of the C01 generator; per store up to 10 single faults drawn from a catalogue of 22 (unknown resource / annotation / dataset / key / data, begin or end beyond the text, inverted offset, complex selector with an invalid last member, nested complex selector, missing target - each combined with data that is new to the store -, valid target with an unknown set / key / data handle after new data, duplicate annotation / resource / dataset / data id, insert_data into an unknown set; valid requests at the edge of validity), one builder with several items of which one cannot be resolved (add_dataset with an unknown data id or key handle first / in the middle / last, under a new or an existing id; add_resource from a file that does not exist) and one batch (annotate_from_iter, annotate_from_file, ADD query) with the invalid item first, in the middle or last; the shadow model decides that the request must be refused; snapshot before vs after (observation with handles and all lookups, segmentation/find_text/related_text answers, hooked dump of every store and index), then the corrected request against a twin store replayed without the failure. distinct_nontrivial = distinct (fault, refused) and (fault, corrected) pairs observed".into();
     rep.assumptions = vec![
         "requests the library accepts although the model refuses them (or vice versa) are C03/C04's business: counted, the history is abandoned".into(),
         "run-time flags (changed, serialize mode) are not part of the snapshot".into(),
@@ -635,6 +698,9 @@ pub fn run(p: &Params, rep: &mut Report) {
         }
         let cont = single_faults(rep, &mut rng, &mut h, &mut g, &mut ok_ops, milestone, shrink, 10);
         if !cont {
+            h = twin_of(&ok_ops, milestone, shrink);
+        }
+        if !builder_fault(rep, &mut rng, &mut h, &mut g) {
             h = twin_of(&ok_ops, milestone, shrink);
         }
         batch_fault(rep, &mut rng, &mut h, &mut g, &p.workdir, k);
